@@ -92,7 +92,8 @@ def main(argv):
             sess = None
         if sess is not None:
             sess.tier = tier
-            native = N.Native(log_dir)
+            ncr = getattr(mod, "NATIVE_CRATE", ("native", "vnative"))
+            native = N.Native(log_dir, ncr[0], ncr[1])
             sess.native_driver = native
             for ob in obs:
                 n0 = len(sess.results)
@@ -115,7 +116,7 @@ def main(argv):
             rep = N.replay_model(sess, native, r) if native else {"status": "no-native"}
             r["replay"] = rep
             if rep["status"] == "reproduced":
-                violations.append({"key": f"{r['obligation']}/{r['query']}", "engine": "M", "detail": rep, "model": r["model"],
+                violations.append({"key": f"{r['obligation']}/{r['query']}", "engine": "M", "detail": rep, "model": r["model"], "native_crate": list(getattr(mod, "NATIVE_CRATE", ("native", "vnative"))),
                                    "query": r["query"], "obligation": r["obligation"]})
             else:
                 problems.append({"what": f"{r['obligation']}/{r['query']}", "why": f"counterexample did not reproduce natively ({rep['status']}): encoding suspect", "model": r["model"], "replay": rep})
@@ -253,7 +254,8 @@ def replay_file(path):
     det = v.get("detail", {})
     print(json.dumps(v, indent=1)[:4000])
     if v.get("engine") == "M":
-        nat = N.Native(os.path.join(WORK, "logs"))
+        ncr = v.get("native_crate") or ["native", "vnative"]
+        nat = N.Native(os.path.join(WORK, "logs"), ncr[0], ncr[1])
         ok = True
         for c in det.get("calls", []):
             out = nat.call(c["key"], c["args"])
